@@ -927,7 +927,14 @@ func (engine *Engine) readConnBlocking(conn *Conn, parser *Parser, decrease func
 		if err != nil {
 			return
 		}
-		_ = parserCloser.Parse((*pbuf)[:n])
+		err = parserCloser.Parse((*pbuf)[:n])
+		if err != nil {
+			// malformed HTTP, or a websocket protocol violation after an upgrade:
+			// the connection is failed (closed by the deferred cleanup), as in the
+			// other I/O modes and as readTLSConnBlocking does.
+			logging.Debug("parser.Read failed: %v", err)
+			return
+		}
 		if conn.Trasfered {
 			parser.onClose = nil
 			parser.CloseAndClean(nil)
